@@ -8,7 +8,13 @@
 
      [step]      the code as it is in /repo now (after the fix recorded in notes/C26.md):
                  set / clear / set_status serialize on a writer mutex;
-     [Old.step]  the code at the pinned commit (get-then-set without a lock). *)
+     [Old.step]  the code at the pinned commit (get-then-set without a lock).
+
+   On top of it, the ACTOR LEVEL ([astep], second half of this file): the RelayActor's
+   on_network_change / set_home_relay / active_relay_handle and every ActiveRelayActor with
+   its inbox of SetHomeRelay(b) messages, its connection phase and the watch writer used at
+   each of its call sites.  There each call of set / clear / set_status is one atomic step
+   (that is what the writer mutex of the first half provides). *)
 From V Require Import Lib.Base.
 Open Scope N_scope.
 
@@ -132,21 +138,20 @@ End Run.
 
 Definition quiescent (s : st) : bool := forallb is_done (pcs s).
 
-(* ---- interface ---- *)
-Definition input := (list op * list ev)%type.
+(* ---- interface of the lock level ---- *)
+Definition linput := (list op * list ev)%type.
 (* The register and the most recent choice read after every event.  `None` = not read:
    after an event that released the mutex while another call was waiting for it, the
    waiting call runs on at once and a read would race with it. *)
 Definition obs_snap := option (option status * option N).
 Definition output := option (list obs_snap).
 
-Definition model_with (stepf : list op -> st -> nat -> option st) (i : input) : output :=
+Definition model_with (stepf : list op -> st -> nat -> option st) (i : linput) : output :=
   let '(prog, evs) := i in
   match run_ev (stepf prog) (init prog) evs with
   | Some (l, s) => if quiescent s then Some (map Some l) else None
   | None => None
   end.
-Definition model := model_with step.
 
 Definition snap_eqb (a b : option status * option N) : bool :=
   opt_eqb status_eqb (fst a) (fst b) && opt_eqb N.eqb (snd a) (snd b).
@@ -159,21 +164,8 @@ Definition osnap_agree (m o : obs_snap) : bool :=
   | Some _, None => false
   end.
 
-Definition agree_with stepf (i : input) (o : output) : bool :=
+Definition agree_with stepf (i : linput) (o : output) : bool :=
   opt_eqb (list_eqb osnap_agree) (model_with stepf i) o.
-Definition agree := agree_with step.
-
-(* The property on an observed run: at every observation point the advertised URL is the
-   relay most recently chosen. *)
-Definition snap_ok (x : option status * option N) : bool := opt_eqb N.eqb (url_of (fst x)) (snd x).
-Definition osnap_ok (x : obs_snap) : bool := match x with Some p => snap_ok p | None => true end.
-Definition monitor (i : input) (o : output) : bool :=
-  match o with
-  | Some l => forallb osnap_ok l
-  | None => true
-  end.
-
-Definition known (i : input) : N := 0.
 
 (* coverage: 0 no call; 1 no set_status passed its guard; 2 some set_status passed its guard
    (stopped between get and set) and nobody had to wait; 3 some call observed waiting *)
@@ -187,14 +179,256 @@ Fixpoint guard_passed (stepf : st -> nat -> option st) (s : st) (evs : list ev) 
                  end
   | Blk _ :: r => guard_passed stepf s r
   end.
-Definition tag_with (stepf : list op -> st -> nat -> option st) (i : input) : N :=
+Definition tag_with (stepf : list op -> st -> nat -> option st) (i : linput) : N :=
   let '(prog, evs) := i in
   match prog with
   | [] => 0
   | _ => if existsb is_blk evs then 3
          else if guard_passed (stepf prog) (init prog) evs then 2 else 1
   end.
-Definition tag := tag_with step.
+
+(* ======================================================================================
+   ACTOR LEVEL.  iroh/src/socket/transports/relay/actor.rs (line numbers of the working tree
+   with the hooks in place):
+     RelayActor::on_network_change      l.1285-1310   (AHome)
+     RelayActor::set_home_relay         l.1312-1325   (the SetHomeRelay(url == home) fan-out)
+     RelayActor::active_relay_handle    l.1375-1392   (AStart; also the tail of set_home_relay)
+     ActiveRelayActor::run / run_once   l.323-358, 404-430   (AReport: the three status reports)
+     ActiveRelayActor::run_dialing      SetHomeRelay arm l.501-505   (AHandle _ false _)
+     ActiveRelayActor::run_connected    SetHomeRelay arm l.631-643   (AHandle _ true _)
+   Each event is atomic: the RelayActor handles one message at a time, every connection
+   actor is one task, and their only shared state is the HomeRelayWatch, whose three
+   writers are atomic under the writer mutex (lock level above).
+   ====================================================================================== *)
+
+(* the three writers of HomeRelayWatch as atomic functions on the register *)
+Definition w_set (u c : N) (w : option status) : option status := Some (u, c).
+Definition w_clear (w : option status) : option status := None.
+Definition w_set_status (u c : N) (w : option status) : option status :=
+  if opt_eqb N.eqb (url_of w) (Some u) then Some (u, c) else w.
+
+(* which writer a call site of a connection actor uses *)
+Inductive writer :=
+| WNone                 (* publishes nothing *)
+| WGuarded (c : N)      (* my_relay.set_status(&self.url, c) — dropped unless self.url is advertised *)
+| WUnguarded (c : N).   (* my_relay.set(self.url.clone(), c) — the RelayActor's writer *)
+
+Definition apply_writer (u : N) (wr : writer) (w : option status) : option status :=
+  match wr with
+  | WNone => w
+  | WGuarded c => w_set_status u c w
+  | WUnguarded c => w_set u c w
+  end.
+
+(* The call sites of the code as it is.
+   SetHomeRelay(is_home) handler: in run_connected `if is_home { my_relay.set_status(&url,
+   Connected) }` (l.639-642); in run_dialing nothing is published (l.501-505).
+   Status reports (run l.332-333, run_once l.407-408 and l.419-420): always set_status. *)
+Definition handler_writer (conn is_home : bool) : writer :=
+  if conn && is_home then WGuarded 1 else WNone.
+Definition report_writer (c : N) : writer := WGuarded c.
+
+(* connection actor: where it is in ActiveRelayActor::run *)
+Inductive phase :=
+| PStart       (* about to report Connecting: just spawned, or after a Disconnected report
+                  (backoff sleep or immediate retry); the inbox is not read here *)
+| PDialing     (* in run_dialing (inbox is read) or dial finished and not yet reported *)
+| PConnected.  (* in run_connected *)
+
+Record actor := mkActor {
+  a_url : N;
+  a_phase : phase;
+  a_home : bool;          (* is_home_relay *)
+  a_inbox : list bool     (* queued SetHomeRelay(b), oldest first *)
+}.
+
+Record ast := mkASt {
+  awatch : option status;
+  achosen : option N;     (* ghost: report.preferred_relay of the latest on_network_change *)
+  actors : list actor     (* RelayActor::active_relays *)
+}.
+
+Definition ainit : ast := mkASt None None [].
+
+Inductive aev :=
+| AHome (pref : option N)               (* RelayActorMessage::NetworkChange, preferred_relay = pref *)
+| AStart (u : N)                        (* active_relay_handle(u), e.g. a datagram to send via u *)
+| AHandle (u : N) (conn : bool) (b : bool)
+      (* actor u takes SetHomeRelay(b) from its inbox, in run_connected (conn) / run_dialing *)
+| AReport (u : N) (c : N).              (* actor u reports 0 Connecting / 1 Connected / 3 Disconnected *)
+
+Fixpoint find_actor (u : N) (l : list actor) : option actor :=
+  match l with
+  | [] => None
+  | a :: r => if N.eqb (a_url a) u then Some a else find_actor u r
+  end.
+
+Fixpoint put_actor (a : actor) (l : list actor) : list actor :=
+  match l with
+  | [] => [a]
+  | x :: r => if N.eqb (a_url x) (a_url a) then a :: r else x :: put_actor a r
+  end.
+
+Definition enqueue (b : bool) (a : actor) : actor :=
+  mkActor (a_url a) (a_phase a) (a_home a) (a_inbox a ++ [b]).
+
+(* active_relay_handle(u): an existing actor is left alone; a new one is spawned and, if u
+   is the advertised home relay, sent SetHomeRelay(true) (try_send, l.1379-1386) *)
+Definition ensure_actor (u : N) (w : option status) (l : list actor) : list actor :=
+  match find_actor u l with
+  | Some _ => l
+  | None => l ++ [mkActor u PStart false (if opt_eqb N.eqb (url_of w) (Some u) then [true] else [])]
+  end.
+
+Definition phase_eqb (a b : phase) : bool :=
+  match a, b with
+  | PStart, PStart | PDialing, PDialing | PConnected, PConnected => true
+  | _, _ => false
+  end.
+
+(* status-report call sites: which phase they leave and enter *)
+Definition report_next (p : phase) (c : N) : option phase :=
+  match c, p with
+  | 0, PStart => Some PDialing                  (* run_once: set_status(Connecting), run_dialing *)
+  | 1, PDialing => Some PConnected              (* run_once: dialed; set_status(Connected), run_connected *)
+  | 3, PDialing => Some PStart                  (* run: dialing failed; set_status(Disconnected{err}) *)
+  | 3, PConnected => Some PStart                (* run: connection lost; set_status(Disconnected{err}) *)
+  | _, _ => None
+  end.
+
+(* `hw` = the writer table of the SetHomeRelay handler (the code as it is: handler_writer) *)
+Definition astep_gen (hw : bool -> bool -> writer) (s : ast) (e : aev) : option ast :=
+  match e with
+  | AHome pref =>
+      (* `let prev = my_relay.get(); if report.preferred_relay == prev_url { return }` *)
+      if opt_eqb N.eqb pref (url_of (awatch s)) then Some (mkASt (awatch s) pref (actors s))
+      else match pref with
+           | Some n =>
+               (* `my_relay.set(n, Connecting)`; set_home_relay: SetHomeRelay(url == n) to every
+                  active relay; active_relay_handle(n) *)
+               let w := w_set n 0 (awatch s) in
+               let l := map (fun a => enqueue (N.eqb (a_url a) n) a) (actors s) in
+               Some (mkASt w (Some n) (ensure_actor n w l))
+           | None =>
+               (* `my_relay.clear()`; nobody is told *)
+               Some (mkASt (w_clear (awatch s)) None (actors s))
+           end
+  | AStart u => Some (mkASt (awatch s) (achosen s) (ensure_actor u (awatch s) (actors s)))
+  | AHandle u conn b =>
+      match find_actor u (actors s) with
+      | Some a =>
+          match a_inbox a with
+          | b' :: rest =>
+              if Bool.eqb b b' && phase_eqb (a_phase a) (if conn then PConnected else PDialing) then
+                Some (mkASt (apply_writer u (hw conn b) (awatch s)) (achosen s)
+                            (put_actor (mkActor u (a_phase a) b rest) (actors s)))
+              else None
+          | [] => None
+          end
+      | None => None
+      end
+  | AReport u c =>
+      match find_actor u (actors s) with
+      | Some a =>
+          match report_next (a_phase a) c with
+          | Some p' =>
+              Some (mkASt (apply_writer u (report_writer c) (awatch s)) (achosen s)
+                          (put_actor (mkActor u p' (a_home a) (a_inbox a)) (actors s)))
+          | None => None
+          end
+      | None => None
+      end
+  end.
+
+Definition astep := astep_gen handler_writer.
+
+(* the seeded variant: the run_connected handler publishes with the RelayActor's unguarded
+   writer `set` *)
+Module Unguarded.
+Definition handler_writer (conn is_home : bool) : writer :=
+  if conn && is_home then WUnguarded 1 else WNone.
+Definition astep := astep_gen handler_writer.
+End Unguarded.
+
+Definition asnap (s : ast) : option status * option N := (awatch s, achosen s).
+
+Section ARun.
+Variable stepf : ast -> aev -> option ast.
+Fixpoint arun (s : ast) (evs : list aev) : option ast :=
+  match evs with
+  | [] => Some s
+  | e :: r => match stepf s e with Some s' => arun s' r | None => None end
+  end.
+(* the (watch, chosen) pair after every event *)
+Fixpoint arun_snaps (s : ast) (evs : list aev) : option (list (option status * option N)) :=
+  match evs with
+  | [] => Some []
+  | e :: r => match stepf s e with
+              | Some s' => match arun_snaps s' r with
+                           | Some l => Some (asnap s' :: l)
+                           | None => None
+                           end
+              | None => None
+              end
+  end.
+End ARun.
+
+Definition amodel (evs : list aev) : output :=
+  match arun_snaps astep ainit evs with
+  | Some l => Some (map Some l)
+  | None => None
+  end.
+
+(* coverage of an actor-level case: 4 no inbox message handled; 5 a SetHomeRelay(true) was
+   handled in run_connected while its relay was the chosen home (status published); 7 some
+   Disconnected report; 6 a SetHomeRelay(true) was handled in run_connected by an actor whose
+   relay was NOT the chosen home any more (late message of a demoted connection) *)
+Fixpoint atag_from (s : ast) (evs : list aev) (acc : N) : N :=
+  match evs with
+  | [] => acc
+  | e :: r =>
+      let k := match e with
+               | AHandle u true true => if opt_eqb N.eqb (achosen s) (Some u) then 5 else 6
+               | AReport _ 3 => 7
+               | AHandle _ _ _ => 4
+               | _ => 0
+               end in
+      let acc' := if (acc =? 6) || (k =? 6) then 6
+                  else if (acc =? 7) || (k =? 7) then 7
+                  else N.max acc k in
+      match astep s e with
+      | Some s' => atag_from s' r acc'
+      | None => acc'
+      end
+  end.
+Definition atag (evs : list aev) : N :=
+  match evs with [] => 0 | _ => N.max 4 (atag_from ainit evs 0) end.
+
+(* ---- interface ---- *)
+Inductive input :=
+| ILow (p : linput)          (* lock level: programs of set_status / on_network_change calls *)
+| IAct (evs : list aev).     (* actor level: observed events of a real RelayActor with its actors *)
+
+Definition model (i : input) : output :=
+  match i with ILow p => model_with step p | IAct evs => amodel evs end.
+
+Definition agree (i : input) (o : output) : bool :=
+  opt_eqb (list_eqb osnap_agree) (model i) o.
+
+(* The property on an observed run: at every observation point the advertised URL is the
+   relay most recently chosen. *)
+Definition snap_ok (x : option status * option N) : bool := opt_eqb N.eqb (url_of (fst x)) (snd x).
+Definition osnap_ok (x : obs_snap) : bool := match x with Some p => snap_ok p | None => true end.
+Definition monitor (i : input) (o : output) : bool :=
+  match o with
+  | Some l => forallb osnap_ok l
+  | None => true
+  end.
+
+Definition known (i : input) : N := 0.
+
+Definition tag (i : input) : N :=
+  match i with ILow p => tag_with step p | IAct evs => atag evs end.
 
 Definition judge (i : input) (o : output) : bool * bool * N * N :=
   (agree i o, monitor i o, known i, tag i).
@@ -202,7 +436,10 @@ Definition judge (i : input) (o : output) : bool * bool * N * N :=
 (* the same interface over the pinned transition system ("coq_module": "C26.OldJ") *)
 Module OldJ.
 Definition judge (i : input) (o : output) : bool * bool * N * N :=
-  (agree_with Old.step i o, monitor i o, known i, tag_with Old.step i).
+  match i with
+  | ILow p => (agree_with Old.step p o, monitor i o, known i, tag_with Old.step p)
+  | IAct _ => (agree i o, monitor i o, known i, tag i)
+  end.
 End OldJ.
 
 End C26.
